@@ -124,6 +124,10 @@ func run() int {
 	outDir := filepath.Join(*verifDir, "out")
 	w.PF = vc.NewPortfolio(filepath.Join(outDir, "smt", *prop), 16)
 	w.PF.AllAgree = *tier == "thorough"
+	vc.GenBudget = 120 * time.Second
+	if *tier == "thorough" {
+		vc.GenBudget = 1800 * time.Second
+	}
 	w.Prop = *prop
 	if cfg.Schema {
 		w.SchemaFor = vc.DecoderSchema(w)
